@@ -384,6 +384,45 @@ func genTable(cfg Config, emit0 func(string, bool, []string)) {
 			// iterator closed while it still has unobserved deletions: nothing may stay
 			// retained once the collector has handled the triggers the close produced
 			nit := 1 + r.IntN(2)
+			if c%40 == 5 {
+				// Close() of one iterator overlapping a transaction that registers another one: the
+				// registration committed meanwhile survives, later deletions are retained for it
+				g.add("wtxn m")
+				g.add("changes m")
+				for i := 0; i < 3; i++ {
+					g.add("ins m %s %d 0 - - 0 %d", hx([]byte{'k', byte('0' + i)}), i, i+1)
+				}
+				g.add("commit")
+				g.nsnap++
+				g.add("rtxn")
+				g.nsnap++
+				g.add("next 0 s%d -1", g.nsnap-1)
+				g.add("wtxn m")
+				g.add("changes m")
+				if r.IntN(2) == 0 {
+					g.add("ins m %s 9 0 - - 0 9", hx([]byte("k9")))
+				}
+				g.add("cclosepark 0")
+				g.add("commit")
+				g.nsnap++
+				g.add("ccloseresume")
+				g.add("wtxn m")
+				g.add("del m %s", hx([]byte("k0")))
+				g.add("del m %s", hx([]byte("k1")))
+				g.add("commit")
+				g.nsnap++
+				g.add("glen - m")
+				g.add("rtxn")
+				g.nsnap++
+				g.add("next 1 s%d -1", g.nsnap-1)
+				g.add("gcidle")
+				g.add("glen - m")
+				g.add("cclose 1")
+				g.add("gcidle")
+				g.add("glen - m")
+				emit("table close-overlapping-registration", true, g.ops)
+				continue
+			}
 			if c%20 == 15 {
 				// Changes() in a transaction that is then aborted registers nothing: later deletions
 				// are not retained for it, and its iterator never sees them
@@ -780,6 +819,78 @@ func genTable(cfg Config, emit0 func(string, bool, []string)) {
 				g.add("rev s%d m", g.nsnap-1)
 				g.add("get s%d m id %s", g.nsnap-1, hx([]byte{'e', byte('0' + k)}))
 			}
+			// a LARGE transaction: more than 64 objects replaced (or removed) at once; every per-key and
+			// per-prefix channel handed out before must be closed by its commit
+			g.add("wtxn m")
+			for i := 0; i < 70; i++ {
+				g.add("ins m %s %d 0 x62 - 0 %d", hx([]byte(fmt.Sprintf("q%02d", i))), i, ord)
+				ord++
+			}
+			g.add("commit")
+			g.nsnap++
+			g.add("rtxn")
+			g.nsnap++
+			{
+				h := fmt.Sprintf("s%d", g.nsnap-1)
+				for _, i := range []int{0, 7, 33, 68, 69} {
+					g.add("getw %s m id %s", h, hx([]byte(fmt.Sprintf("q%02d", i))))
+				}
+				g.add("prefixw %s m id %s", h, hx([]byte("q3")))
+				g.add("prefixw %s m id %s", h, hx([]byte("q")))
+				g.add("listw %s m tags x62", h)
+				g.add("getw %s m id %s", h, hx([]byte("q99")))
+				g.add("wtxn m")
+				if r.IntN(2) == 0 {
+					for i := 0; i < 70; i++ {
+						g.add("ins m %s %d 0 x62 - 0 %d", hx([]byte(fmt.Sprintf("q%02d", i))), 100+i, ord)
+						ord++
+					}
+				} else {
+					for i := 0; i < 70; i++ {
+						g.add("del m %s", hx([]byte(fmt.Sprintf("q%02d", i))))
+					}
+				}
+				g.add("commit")
+				g.nsnap++
+				g.add("closed")
+			}
+			// inside ONE transaction: a write, an iterating read, Modify (with merge) of several objects and
+			// then DeleteAll (or an All + Delete loop is what DeleteAll does): nothing is left behind
+			g.add("wtxn m")
+			for i, id := range []string{"da", "db", "dc", "dd"} {
+				put(id, 90+i)
+			}
+			g.add("commit")
+			g.nsnap++
+			g.add("wtxn m")
+			put("de", 95)
+			switch r.IntN(3) {
+			case 0:
+				g.add("all w m")
+			case 1:
+				g.add("prefix w m id %s", hx([]byte("d")))
+			case 2:
+				g.add("lb w m id %s", hx([]byte("d")))
+			}
+			for i, id := range []string{"da", "db", "dc", "dd"} {
+				if r.IntN(4) != 0 {
+					g.add("mod m %s %d 0 - - 0 %d", hx([]byte(id)), 190+i, ord)
+					ord++
+				}
+			}
+			g.add("delall m")
+			g.add("all w m")
+			g.add("num w m")
+			if r.IntN(3) == 0 {
+				g.add("abort")
+			} else {
+				g.add("commit")
+				g.nsnap++
+			}
+			g.add("rtxn")
+			g.nsnap++
+			g.add("all s%d m", g.nsnap-1)
+			g.add("num s%d m", g.nsnap-1)
 			for sn := 0; sn < g.nsnap; sn++ {
 				g.sweep(fmt.Sprintf("s%d", sn), 3)
 			}
@@ -1171,6 +1282,10 @@ type tableExec struct {
 	lastHandle    statedb.WriteTxn
 	memo          map[string]string
 	closerGoid    atomic.Int64
+	closerAtEntry atomic.Bool // park the closing goroutine where Close() begins, before it asks for the table lock
+	closerDone    chan struct{}
+	closerIter    int
+	closeRaced    bool // a Close() has overlapped a transaction that registered another iterator
 	closerParked  chan struct{}
 	closerRelease chan struct{}
 	gcDead        bool
@@ -1225,7 +1340,11 @@ func newTableExec(h string) *tableExec {
 			<-e.gcRelease
 			return
 		}
-		if point == "commit-before-rootlock" && e.closerGoid.Load() == goid() {
+		if point == "commit-before-rootlock" && e.closerGoid.Load() == goid() && !e.closerAtEntry.Load() {
+			e.closerParked <- struct{}{}
+			<-e.closerRelease
+		}
+		if point == "dt-close-before-wtxn" && e.closerGoid.Load() == goid() && e.closerAtEntry.Load() {
 			e.closerParked <- struct{}{}
 			<-e.closerRelease
 		}
@@ -1712,6 +1831,17 @@ func (e *tableExec) do(o *Out, f []string) string {
 		e.wtxn = nil
 		// a deletion is only retained for a change iterator that exists: with no tracker registered
 		// (before or by this transaction) the graveyard cannot have grown
+		for tn := range e.glenAtBegin {
+			if rt := e.txnRef.t(tn); rt.ntrack > 0 && e.gcAt == "" {
+				if now := statedb.VerifGraveyardLen(rtx, e.tbl(tn)); now < len(rt.grave) {
+					detail := fmt.Sprintf("table %s: %d deleted objects are retained after this commit, but %d deletions were committed while a change iterator was registered and have not been collected", tn, now, len(rt.grave))
+					if e.closeRaced {
+						o.Fail("C05", "committed-registration-lost", map[string]string{"table": tn}, detail+" — the registration of an iterator, committed while a Close() of another iterator was in progress, is gone")
+					}
+					o.Fail("C08", "retained-deletion-missing", map[string]string{"table": tn}, detail)
+				}
+			}
+		}
 		for tn, before := range e.glenAtBegin {
 			if e.txnRef.t(tn).ntrack == 0 {
 				if now := statedb.VerifGraveyardLen(rtx, e.tbl(tn)); now > before {
@@ -2030,6 +2160,52 @@ func (e *tableExec) do(o *Out, f []string) string {
 		}
 		if e.committed.t(ci.table).ntrack == 0 {
 			// nothing is retained for nobody (collected at the next run)
+		}
+		return "ok"
+	case "cclosepark":
+		// Close() of iterator i starts on another goroutine while a write transaction holding its
+		// table is open (and may have registered further iterators); it is held where it begins
+		if e.wtxn == nil || e.closerDone != nil || e.gcAt == "gc-scanned" {
+			return "bad-op"
+		}
+		i, _ := strconv.Atoi(f[1])
+		ci := e.iters[i]
+		if ci.closed || !strings.Contains(e.wtables, ci.table) {
+			return "bad-op"
+		}
+		e.closerAtEntry.Store(true)
+		e.closerDone = make(chan struct{})
+		e.closerIter = i
+		done := e.closerDone
+		go func() {
+			e.closerGoid.Store(goid())
+			ci.it.Close()
+			e.closerGoid.Store(0)
+			close(done)
+		}()
+		select {
+		case <-e.closerParked:
+		case <-time.After(3 * time.Second):
+			return "timeout"
+		}
+		e.closeRaced = true
+		return "ok"
+	case "ccloseresume":
+		if e.wtxn != nil || e.closerDone == nil {
+			return "bad-op"
+		}
+		e.closerRelease <- struct{}{}
+		select {
+		case <-e.closerDone:
+		case <-time.After(3 * time.Second):
+			return "timeout"
+		}
+		e.closerAtEntry.Store(false)
+		e.closerDone = nil
+		ci := e.iters[e.closerIter]
+		ci.closed = true
+		if ci.registered {
+			e.committed.t(ci.table).ntrack--
 		}
 		return "ok"
 	case "ccloserace":
